@@ -25,11 +25,21 @@ import (
 	"golang.org/x/tools/go/ssa/ssautil"
 )
 
-const (
-	repoDir  = "/repo"
-	verifDir = "/verif"
-	modPath  = "github.com/honeytrap/honeytrap"
+const modPath = "github.com/honeytrap/honeytrap"
+
+// the tree under test and the verification directory; the environment overrides exist only
+// so that the seeded-change matrix can run against scratch copies
+var (
+	repoDir  = envOr("GOSX_REPO", "/repo")
+	verifDir = envOr("GOSX_VERIF", "/verif")
 )
+
+func envOr(k, d string) string {
+	if v := os.Getenv(k); v != "" {
+		return v
+	}
+	return d
+}
 
 type TierCfg struct {
 	Params    map[string]int `json:"params"`
